@@ -134,3 +134,32 @@ Example cx_bits_and_wrapper :
   encode iprims (SArr 3 (SPrim PU8)) (VSeq [VPrim 1; VPrim 2]) = None /\
   decode iprims (STuple [SPrim PU8; SPrim PBool]) [9; 0] = Some (VTuple [VPrim 9; VPrim 0], []).
 Proof. vm_compute. repeat split; reflexivity. Qed.
+
+(** the same relation for EVERY field-value list, from the theorem (its hypotheses are
+    satisfiable): the generated enum [types::a::E] at index 5 = index byte + standalone struct *)
+Example cx_standalone_kind :
+  exists k u,
+    create_composite_ir_kind cx_reg cx_settings (v_fields (nth 2 cx_variants (mk_variant "" [] 0 [])))
+                             [] [] = Ok (k, u) /\
+    cx_standalone = upcast_composite cx_settings (mk_ci "C" k []).
+Proof. vm_compute. eexists. eexists. split; reflexivity. Qed.
+
+Example cx_payload_by_theorem :
+  forall vals,
+    encode iprims (shape_rust cx_items cx_settings 4 (cx_path 5)) (VEnum 5 vals) =
+    match encode iprims (item_shape cx_items cx_settings 3 cx_standalone []) (VStruct vals) with
+    | Some e => Some (5 :: e)
+    | None => None
+    end.
+Proof.
+  destruct cx_standalone_kind as (k & u & Hk & ->).
+  refine (proj1 (standalone_payload_named iprims cx_reg cx_settings _ cx_items
+                   cx_skeleton_consistent cx_root_fresh (proj1 cx_generate_ok)
+                   5 (mk_ty ["a"; "E"] [] (TDVariant cx_variants) []) (cx_path 5) cx_variants
+                   (nth 2 cx_variants (mk_variant "" [] 0 [])) k u "C" [] 3%nat
+                   eq_refl eq_refl _ _ eq_refl _ _ Hk)).
+  - vm_compute. discriminate.
+  - vm_compute. reflexivity.
+  - vm_compute. right. right. left. reflexivity.
+  - vm_compute. repeat constructor; cbn [In]; intuition discriminate.
+Qed.
